@@ -471,6 +471,27 @@ def _write_calls(out_dir, header, table):
             L.append(f"def vcall_{nm} {T}(ncomp : ℕ) {sc_params} {fparams} (r : Rect{d}) : Call{d} B K :=\n"
                      f"  {{ kid := \"{nm}\", binds := {binds}, scal := [{sc_list}], region := r,\n"
                      f"    writes := {' ++ '.join(ws)} }}\n")
+    # width-dispatchers for the families of sliced kernels (one generated kernel per enumerated width)
+    fams = {}
+    for e in table:
+        m = re.match(r"(.*)_w(\d+)$", e["lean"])
+        if m and e["slice"] is not None:
+            fams.setdefault(m.group(1), []).append((int(m.group(2)), e))
+    for base, members in sorted(fams.items()):
+        members.sort(key=lambda t: t[0])
+        e0 = members[0][1]
+        d = e0["ndim"]
+        T = "(T : Transc K) " if e0["transcendental"] else ""
+        Targ = "T " if e0["transcendental"] else ""
+        sc_params = " ".join(f"({x} : K)" for x in e0["scalars"])
+        fparams = " ".join(f"({lname(f)} : B)" for f in e0["fields"])
+        args = " ".join(e0["scalars"]) + " " + " ".join(lname(f) for f in e0["fields"])
+        lines = [f"/-- `{base}` for the width option `w` (widths {', '.join(str(w) for w, _ in members)} are generated; larger widths fall back to the last) -/",
+                 f"def call_{base}_w {T}(w : ℕ) {sc_params} {fparams} (r : Rect{d}) : Call{d} B K :=", "  match w with"]
+        for w, e in members[:-1]:
+            lines.append(f"  | {w} => call_{e['lean']} {Targ}{args} r")
+        lines.append(f"  | _ => call_{members[-1][1]['lean']} {Targ}{args} r")
+        L.append("\n".join(lines) + "\n")
     L.append("end Sopht.Gen\n")
     with open(os.path.join(out_dir, "Calls.lean"), "w") as f:
         f.write("\n".join(L))
